@@ -210,13 +210,20 @@ func c21RunOpenSSL(openssl, dir string, e *c21Export) error {
 	return err
 }
 
+// c21Mem is the memory layout class for the PFX bytes handed to Decode / ToPEM and for the KDF inputs.
+var c21Mem int
+
 // c21CheckGood: Decode and ToPEM must recover exactly the key and certificate.
 func c21CheckGood(e *c21Export) error {
 	var key any
 	var cert *x509.Certificate
 	var err error
-	if pan := noPanic(func() { key, cert, err = pkcs12.Decode(e.pfx, e.password) }); pan != nil {
+	lay := placeInputs(c21Mem, e.pfx)
+	if pan := noPanic(func() { key, cert, err = pkcs12.Decode(lay.placed[0], e.password) }); pan != nil {
 		return fmt.Errorf("Decode: %v", pan)
+	}
+	if merr := lay.check(); merr != nil {
+		return fmt.Errorf("Decode: %v", merr)
 	}
 	if err != nil {
 		return fmt.Errorf("Decode with the correct password %q failed: %v", e.password, err)
@@ -228,8 +235,11 @@ func c21CheckGood(e *c21Export) error {
 		return fmt.Errorf("Decode returned a different private key (%T)", key)
 	}
 	var blocks []*pem.Block
-	if pan := noPanic(func() { blocks, err = pkcs12.ToPEM(e.pfx, e.password) }); pan != nil {
+	if pan := noPanic(func() { blocks, err = pkcs12.ToPEM(lay.placed[0], e.password) }); pan != nil {
 		return fmt.Errorf("ToPEM: %v", pan)
+	}
+	if merr := lay.check(); merr != nil {
+		return fmt.Errorf("ToPEM: %v", merr)
 	}
 	if err != nil {
 		return fmt.Errorf("ToPEM with the correct password %q failed: %v", e.password, err)
@@ -304,8 +314,12 @@ func c21CheckMutated2(e *c21Export, mut []byte, comparePEM bool) (verdict string
 	var key any
 	var cert *x509.Certificate
 	var derr error
-	if pan := noPanic(func() { key, cert, derr = pkcs12.Decode(mut, e.password) }); pan != nil {
+	lay := placeInputs(c21Mem, mut)
+	if pan := noPanic(func() { key, cert, derr = pkcs12.Decode(lay.placed[0], e.password) }); pan != nil {
 		return "", fmt.Errorf("Decode of a mutated file: %v", pan)
+	}
+	if merr := lay.check(); merr != nil {
+		return "", fmt.Errorf("Decode of a mutated file: %v", merr)
 	}
 	if derr == nil {
 		if cert == nil || !bytes.Equal(cert.Raw, e.certDER) || !c21SamePrivate(key, e.key.priv) {
@@ -317,8 +331,11 @@ func c21CheckMutated2(e *c21Export, mut []byte, comparePEM bool) (verdict string
 	}
 	var blocks []*pem.Block
 	var perr error
-	if pan := noPanic(func() { blocks, perr = pkcs12.ToPEM(mut, e.password) }); pan != nil {
+	if pan := noPanic(func() { blocks, perr = pkcs12.ToPEM(lay.placed[0], e.password) }); pan != nil {
 		return "", fmt.Errorf("ToPEM of a mutated file: %v", pan)
+	}
+	if merr := lay.check(); merr != nil {
+		return "", fmt.Errorf("ToPEM of a mutated file: %v", merr)
 	}
 	if perr == nil && comparePEM {
 		for _, b := range blocks {
@@ -455,6 +472,8 @@ func TestC21(t *testing.T) {
 	}
 
 	rapid.Check(t, func(rt *rapid.T) {
+		c21Mem = drawMem(rt)
+		c.Class("mem=" + memClasses[c21Mem])
 		part := weighted(rt, "part", 30, 20, 20, 30)
 		if openssl == "" && part < 2 {
 			part = 2
@@ -562,7 +581,13 @@ func TestC21(t *testing.T) {
 			id := byte(uniform(rt, "kdf.id", 1, 3))
 			size := pick(rt, "kdf.size", []int{5, 8, 20, 24, 1, 19, 21, 40, 41, 60, 64, 100})
 			var out []byte
-			if pan := noPanic(func() { out = pkcs12.VerifPBKDF(salt, bmp, iter, id, size) }); pan != nil {
+			klay := placeInputs(c21Mem, salt, bmp)
+			if pan := noPanic(func() {
+				out = pkcs12.VerifPBKDF(klay.placed[0], klay.placed[1], iter, id, size)
+				if merr := klay.check(); merr != nil {
+					panic(merr.Error())
+				}
+			}); pan != nil {
 				rt.Fatalf("VF-VIOLATION: property=C21 pbkdf(salt %d bytes, password %d bytes, iter %d, id %d, size %d): %v", len(salt), len(bmp), iter, id, size, pan)
 			}
 			if ref := refkdf.PKCS12KDFSHA1(salt, bmp, iter, id, size); !bytes.Equal(out, ref) {
